@@ -247,11 +247,18 @@ def family(tier):
                      "viol": tr["viol"], "drive_tlc_wall_s": round(time.time() - t0, 1)}
         if name in LIFE_CONFORMANCE_POOLS:
             # code -> spec: the recorded life-cycle events replayed through TableLife's own actions (DRIFT = model and code disagree)
-            lt = tlc_trace("TableLifeTrace.tla", "TableLifeTrace.cfg", path, timeout=3000, parts=8, by_trace=True)
-            res[name]["life_drift"] = [[k, list(r)] for k, r in lt["drift"]][:50]
-            res[name]["life_drift_n"] = len(lt["drift"])
-            if lt["drift"]:
-                log("DRIFT TableLife vs pool %s: %d scenario(s), e.g. line %s" % (name, len(lt["drift"]), lt["drift"][0]))
+            try:
+                lt = tlc_trace("TableLifeTrace.tla", "TableLifeTrace.cfg", path, timeout=3000, parts=8, by_trace=True)
+                res[name]["life_drift"] = [[k, list(r)] for k, r in lt["drift"]][:50]
+                res[name]["life_drift_n"] = len(lt["drift"])
+                if lt["drift"]:
+                    log("DRIFT TableLife vs pool %s: %d scenario(s), e.g. line %s" % (name, len(lt["drift"]), lt["drift"][0]))
+            except Inconclusive as e:
+                # the conformance run is advisory (DRIFT never decides anything): a trace the model cannot follow to the end
+                # is reported as such and does not stop the verdict run
+                log("DRIFT TableLife vs pool %s: the model could not follow the recorded behaviour to the end (%s)" % (name, str(e)[:300]))
+                res[name]["life_drift"] = [["incomplete", str(e)[:300]]]
+                res[name]["life_drift_n"] = 1
     t0 = time.time()
     path, summ = run_hand_dfs(tier, cdir)
     tr = tlc_trace("HandTrace.tla", "HandTrace.cfg", path, timeout=3000, parts=14)
